@@ -371,6 +371,7 @@ fn k_sweep(rng: &mut Rng, rec: &mut Recorder, size: usize, k: usize) {
     let Ok(mut placed) = keys_of(&a) else { return };
     let n0 = placed.len();
     let mut n_new = 0;
+    let mut end_placed: Vec<Key> = Vec::new();
     for call in 1..=k {
         let mut fresh = Vec::new();
         if call % 3 == 0 {
@@ -395,8 +396,24 @@ fn k_sweep(rng: &mut Rng, rec: &mut Recorder, size: usize, k: usize) {
         match keys_of(&a) {
             Ok(obs) => {
                 if let Err(msg) = check_order(&placed, &fresh, &obs, true) {
-                    rec.violation("sort_new_items(): placement order violated", &format!("k-sweep call #{call}: {msg}"), w);
+                    // same classification as in history(): the known shape involves only elements that
+                    // were placed "at the end" (uid 0) by an earlier call
+                    let p2: Vec<Key> = placed.iter().filter(|k| !end_placed.contains(k)).cloned().collect();
+                    let mut f2 = fresh.clone();
+                    f2.extend(end_placed.iter().cloned());
+                    let sig = if !end_placed.is_empty() && check_order(&p2, &f2, &obs, true).is_ok() {
+                        "sort_new_items(): elements placed at the end (kind without placed elements) are reordered by later insertions"
+                    } else {
+                        "sort_new_items(): placement order violated"
+                    };
+                    rec.violation(sig, &format!("k-sweep call #{call}: {msg}"), w);
                     return;
+                }
+                for f in &fresh {
+                    let kind_had_placed = placed.iter().any(|k| k.0 == f.0 && !end_placed.contains(k));
+                    if !kind_had_placed {
+                        end_placed.push(f.clone());
+                    }
                 }
                 placed = obs;
             }
